@@ -92,3 +92,57 @@ package httpgrpc
 //@   ensures[C08] single_request_needs_clean_end: result == nil && !old(s.respStream) ==> rd_end_err(sbody(s)) == io.EOF && rd_pos(sbody(s)) == rd_tot(sbody(s))
 //@   assert_call[C01,C07] readProtoMessage : decodes_into_m: arg0 == sbody(s) && arg1 == s.codec && arg3 == m
 //@   modifies s.recvd, rd_pos(sbody(s)), external
+
+// ---- client.go helpers ----
+//
+//@ func statusFromContextError
+//@   ensures[C04] deadline: err == context.DeadlineExceeded ==> is_status_err(result) && err_status_code(result) == 4
+//@   ensures[C04] canceled: err == context.Canceled ==> is_status_err(result) && err_status_code(result) == 1
+//@   ensures[C04,C02] other_errors_unchanged: err != context.DeadlineExceeded && err != context.Canceled ==> result == err
+//@   ensures[C04] nil_stays_nil: (result == nil) <==> (err == nil)
+//@   modifies nothing
+//
+//@ func metadataFromProto
+//@   ensures[C03] result != nil && fresh(result)
+//@   modifies nothing
+//
+//@ func getPeer
+//@   ensures[C13] result != nil && fresh(result)
+//@   ensures[C13] tls_reported: (tls != nil) <==> (result.AuthInfo != nil)
+//@   ensures[C13] tls_state: tls != nil ==> typeis(result.AuthInfo, "credentials.TLSInfo") && unbox(result.AuthInfo, "credentials.TLSInfo").State == *tls
+//@   modifies nothing
+//
+//@ func asMetadata
+//@   ensures[C03] result1 == nil ==> result0 != nil && fresh(result0)
+//@   ensures[C03] result1 != nil ==> result0 == nil
+//@   modifies nothing
+//
+//@ func statFromResponse
+//@   modifies nothing
+
+// ---- clientStream (client.go) ----
+//
+//@ type clientStream
+//@   guarded_by rMu : done, rErr
+//@   invariant[C02,C04,C07] final_error_is_reportable: self.rErr != io.EOF && self.rErr != context.Canceled && self.rErr != context.DeadlineExceeded
+//
+// doHttpCall is the body of the goroutine spawned by NewStream (exactly one per
+// stream). It is the only closer of cs.rCh and the only caller of ready.Done.
+//@ define reply_body = lastresult("http.RoundTripper.RoundTrip", 0).Body
+//@ func (*clientStream).doHttpCall
+//@   requires wg_count(&cs.ready) == 1
+//@   requires !closed(cs.rCh) && cs.rCh != nil
+//@   requires !held(&cs.rMu)
+//@   sole_closer cs.rCh
+//@   alloc_bound[C07] maxMessageSize
+//@   blocking_escape[C05,C04] cs.ctx
+//@   loop loop#1 invariant[C05] rErr == nil && !rMuHeld && !held(&cs.rMu) && wg_count(&cs.ready) == 0 && !closed(cs.rCh)
+//@   ensures[C05] ready_released_exactly_once: wg_count(&cs.ready) == 0
+//@   ensures[C05] stream_marked_done_and_closed: cs.done && closed(cs.rCh) && !held(&cs.rMu)
+//@   ensures[C07,C02] truncated_response_is_never_a_clean_end: cs.rErr != io.EOF
+//@   ensures[C04] never_a_bare_context_error: cs.rErr != context.Canceled && cs.rErr != context.DeadlineExceeded
+//@   ensures[C02,C07] success_means_trailer_or_status_seen: cs.rErr == nil && !called("readProtoMessage") ==> cs.tr.Code != 0
+//@   assert_call[C13] getPeer : peer_from_reply_tls: arg0 == cs.baseUrl && arg1 == lastresult("http.RoundTripper.RoundTrip", 0).TLS
+//@   assert_call[C04] http.RoundTripper.RoundTrip : request_carries_stream_context: arg0 == transport
+//@   assert_call[C07,C01] readProtoMessage : trailer_size_is_negated_prefix: arg0 == reply_body && arg1 == cs.codec && sz < 0 && (sz > -2147483648 ==> arg2 == 0 - sz) && (sz == -2147483648 ==> arg2 < 0)
+//@   modifies everything
